@@ -344,6 +344,55 @@ func c01Families(tier string) []explore.Family {
 		c01Check(r, "corpus", src, corpusBind(), func() any { return map[string]any{"template": src, "derived_from": t} })
 	}})
 
+	// 4b. template pool x universe: every binding name of the other generators' templates bound to every universe value
+	var pool []string
+	pool = append(pool, c20Templates...)
+	pool = append(pool, c04Base...)
+	pool = append(pool, c03Templates...)
+	for _, t := range c18Templates {
+		pool = append(pool, t.src)
+	}
+	names := []string{"x", "l", "m", "a", "n", "s", "d", "lm", "nested", "y"}
+	fams = append(fams, explore.Family{Name: "pool-x-universe", Count: int64(len(pool) * len(names) * U), Run: func(i int64, r *explore.Rec) {
+		rx := radix{i}
+		ui, ni, ti := rx.next(U), rx.next(len(names)), rx.next(len(pool))
+		src := pool[ti]
+		if !strings.Contains(src, names[ni]) {
+			return
+		}
+		b := c20Bind()
+		for k, v := range c03Envs(0) {
+			if _, ok := b[k]; !ok {
+				b[k] = v
+			}
+		}
+		b[names[ni]] = univ.All[ui].Build()
+		c01Check(r, "pool", src, b, func() any { return map[string]any{"template": src, names[ni]: univ.All[ui].Name} })
+	}})
+	// 4c. tag programs (assign/capture/for/tablerow/if/include combinations) x universe values for x and y
+	if thorough {
+		pc := c12Counts(2)
+		nprog := pc[0] + pc[1] + pc[2]
+		fams = append(fams, explore.Family{Name: "tag-programs-x-universe", Count: nprog * int64(U*S), Run: func(i int64, r *explore.Rec) {
+			rx := radix{i}
+			yi, xi := small[rx.next(S)], rx.next(U)
+			pi := rx.i
+			n := 0
+			for pi >= pc[n] {
+				pi -= pc[n]
+				n++
+			}
+			prog := c12Unrank(pc, n, pi)
+			var sb strings.Builder
+			sb.WriteString(c12Probe)
+			c12Source(prog, &sb)
+			src := strings.ReplaceAll(sb.String(), "(1..2)", "x")
+			c01Check(r, "tagprog", src, c01Bind([]string{"x", "y"}, []int{xi, yi}), func() any {
+				return map[string]any{"template": src, "x": univ.All[xi].Name, "y": univ.All[yi].Name}
+			})
+		}})
+	}
+
 	// 5. scaled family: work grows linearly with repetition (counting oracle, no clock)
 	nscale := 2
 	fams = append(fams, explore.Family{Name: "scaled", Count: seqCount(len(sigmaLex), nscale), Run: func(i int64, r *explore.Rec) {
